@@ -58,6 +58,7 @@ FailsRun(r) ==
                   /\ r.nind = (r.rows \div r.box) * (r.cols \div r.box)
                   /\ r.nind >= 4))
 
+Clamp == 400000000     \* logged values are clamped to +- Clamp
 ProbeDevB(p, r) == LET d == p[2] - (r.sgn * p[1] + r.c) IN Abs(d)
 ProbeDevR(p) == Abs(p[4] - p[3])
 
@@ -79,7 +80,7 @@ FailsPair(r) ==
     \o Clause(tag \o "_same_blank_pixels", r.nan_mismatch = 0)
     \* the scalar deviations are the deviations of the raw values at the arg-max probes (+- rounding)
     \o Clause("harness_dev_attained_at_probe",
-              Len(r.probes) >= 2 =>
+              (Len(r.probes) >= 2 /\ ~\E k \in 1..2 : \E j \in 1..4 : Abs(r.probes[k][j]) >= Clamp) =>
                  /\ Within(ProbeDevB(r.probes[1], r), r.dev_bkg, 3)
                  /\ Within(ProbeDevR(r.probes[2]), r.dev_rms, 3))
 
